@@ -537,17 +537,17 @@ _ADDED3 = {
     "C08": "MATRIXLINES: a blank line in matrix.def is skipped, it does not end the table. FEATSPAN: the end of the feature is not found by a search of the remaining input, and the end of the input at a row start is not taken for a row.",
     "C10": "MATRIXLINES as for C08. MAPCOMPOSE (the C06 rule). VERIFYSTRICT also reads counts captured by a closure and `cond.then_some(..).ok_or_else(..)?`.",
     "C11": "FEATSPAN feature-cut-at-reader-positions also rejects an end found by position/find/split over the remaining input; input-end-at-a-row-start-is-not-a-row: the read that hits the end of the input with no field started and no output (blank lines only) cannot reach the `row too short` error; terminator-is-cut-only-when-one-was-consumed: per record-ending outcome of csv-core (input empty inside a field / a field returned on empty input / a field that consumed its terminator) the length carries exactly the credit the cut removes. KIND over the builder's verify step.",
-    "C09": "MAGIC rejection-cannot-panic: the path from a header mismatch to the error has no unwrap / index of its own.",
+    "C09": "MAGIC rejection-cannot-panic: the path from a header mismatch to the error has no unwrap / index of its own; reads-the-callers-reader: header and image are read from the parameter itself, not from a buffering wrapper created in read_common.",
     "C14": "KIND over Lexicon::verify, UnkHandler::verify and ConnectorWrapper (the emitted files always compile: ids are compared with the count of their own side).",
     "C17": "FIRSTMATCH-SCAN one scan per node. CONFLINE: rewrite.def / feature.def lines are stripped on both sides. REGEX probes numbers that contain the digit 0.",
-    "C18": "CONFLINE as for C17. CHARKEY / CATEINV (`%t` expands to the character type). BIGRAMROW every-row as for C16.",
+    "C18": "NEXTID: the id stored for a new feature string is the running counter *next_id, not a value derived from the table's size. CONFLINE as for C17. CHARKEY / CATEINV (`%t` expands to the character type). BIGRAMROW every-row as for C16.",
     "C19": "SPLITALL: in the split tool a counter zipped with the shared corpus iterator is the first member of the zip.",
     "C20": "CONFLINE and RAWLINE as for C17 / C07 (feature.def templates, bigram.cost feature texts).",
-    "C13": "MAPREWRITE whole-table: the loop that rewrites an id-indexed table does not run through zip/take/skip. RESET-POOL accepts a walk of the node pool bounded by take(len_char ..).",
+    "C13": "COUNTERINIT: every path through init_connid_counter stores Some(ConnIdCounter::new(..)). MAPREWRITE whole-table: the loop that rewrites an id-indexed table does not run through zip/take/skip. RESET-POOL accepts a walk of the node pool bounded by take(len_char ..).",
     "C06": "MAPREWRITE whole-table as for C13. MAPCOMPOSE through adaptor chains.",
     "C15": "CODEC expands tuple and array values per element on both sides.",
     "C02": "VITERBI also reads the running minimum kept as one (index, cost) pair and a for_each body (rewritten into its next() loop on the fact level).",
-    "C05": "CODEC-GUARD reads the length test on a tuple of the two lengths.",
+    "C05": "CODEC-GUARD reads the length test on a tuple of the two lengths. MAGIC (the C09 rule, incl. reads-the-callers-reader: `read` consumes what `write` produced).",
 }
 for _p, _t in _ADDED3.items():
     PROPS[_p]["explanation"] += " " + _t
